@@ -39,6 +39,14 @@ CHECKS = {
          "character by character with the transcribed writer."),
    note=("Trusted: harness tables, TLC. Collisions caused only by unescaped '+', ',', '=' inside strings are the recorded known finding C05-key-delimiters; every other merge of "
          "different identities is a violation."), design_ref="DESIGN.md section 6 C05"),
+ "C06": dict(
+   technique="TLA+ specs Sanitize.tla (per-rune loop with lazy buffer) and SanitizePool.tla (pooled buffers, concurrent calls) checked by TLC; real sanitizer outputs validated by TLC against SanitizeTrace.tla",
+   text=("TLC checks only-allowed-or-replacement, valid-unchanged (no copy), idempotence, rune count and position-wise replacement on the transcribed loop for all class "
+         "sequences up to length 4 (5) x configurations, and result stability for two concurrent calls sharing the buffer pool; each weakening is shown to be caught. "
+         "The real NewSanitizer is run on every class sequence for default and seeded random options, on 4 KiB repetitions, through scopes whose every reported string is "
+         "classified, and from 8 goroutines; TLC compares each logged output with the loop's result."),
+   note=("Trusted: the harness's class images (concrete runes chosen per ValidCharacters value incl. range ends +-1) and its abstraction of outputs, its own validity "
+         "predicate for strings reaching the reporter, TLC."), design_ref="DESIGN.md section 6 C06"),
  "C07": dict(
    technique="TLA+ model TallyCore.tla checked by TLC; observable traces of the real registry code under a controlled scheduler validated by TLC against TallyObs.tla",
    text=("TLC checks, on the model of the registry (RUnlock/Lock/delete/RLock hand-over, closed-flag read, Subscope with report-on-reacquire), that everything promised "
